@@ -141,18 +141,18 @@ func b2i(b bool) int64 {
 // ---- in-process TinyKv shim -------------------------------------------------
 
 type c28 struct {
-	w       *world
-	nreg    int
-	repl    bool
-	reuse   bool
-	model   map[string]string // committed value per key ("" = absent) after all decided transactions
-	txnSeq  int
-	writer  *client.Client
-	reader  *client.Client
-	cl      *cliTask
-	tbuf    []string
-	rolled  map[string]bool // keys that received a rollback record at some point
-	coarse  bool
+	w      *world
+	nreg   int
+	repl   bool
+	reuse  bool
+	model  map[string]string // committed value per key ("" = absent) after all decided transactions
+	txnSeq int
+	writer *client.Client
+	reader *client.Client
+	cl     *cliTask
+	tbuf   []string
+	rolled map[string]bool // keys that received a rollback record at some point
+	coarse bool
 
 	// per-transaction fault state
 	faultOn                     bool
@@ -199,7 +199,6 @@ func shimCall[R any](s *shim, method int, region uint64, f func(*rkv.Service) (R
 		// Park: the root goroutine decides when this RPC proceeds (and may change leaders first).
 		w.sched.Yield(nil, "rpc")
 	}
-	dbg("  shim %s r%d att=%d armed=%v store=%d", name, region, att, armed, s.store+1)
 	hit := armed && h.faultOn && !h.fired && h.fMethod == method && uint64(h.fRegion+1) == region && h.fAtt == att
 	if hit && h.fMd == fBefore {
 		h.fired = true
@@ -314,7 +313,6 @@ func (h *c28) call(fn func()) bool {
 			w.step++
 			if !h.coarse {
 				w.tr("release rpc %d", h.rpcIndex)
-				dbg("  release at site %s finished=%v", h.cl.task.Site, h.cl.finished.Load())
 			}
 			w.sched.Release(h.cl.task)
 			w.afterStep()
